@@ -28,6 +28,8 @@ structure Wire where
   sent : Bytes := []           -- everything forwarded so far (what the tap recorded)
   limit : Option Nat := none   -- fault point armed: forward this many more bytes
   cut : Bool := false          -- half-closed: the receiver reads EOF after `buf`
+  tear : Option Nat := none    -- one-shot: the next trunk Write call sends only this many bytes
+                               -- and fails with a transient error; the trunk keeps working
   exactUpTo : Option Nat := none  -- a trunk write failed half way (EPIPE towards a dead peer):
                                -- from this offset on the tap may hold a torn frame nobody reads
 
@@ -136,7 +138,7 @@ def Sys.setOutWire (s : Sys) (x : Nat) (w : Wire) : Sys := if x = 0 then { s wit
 
 inductive OpKind
   | open | dial | listen | accept | acceptbg | lclose | write | read | readbg | join | closeconn
-  | closemux | cut
+  | closemux | cut | tear
 deriving DecidableEq, Repr
 
 structure Op where
@@ -231,16 +233,49 @@ def Sys.apply (s : Sys) (idx : Nat) (op : Op) (seen : Seen) (_late : Option Seen
   | .cut =>
     expect "cut" "ok" seen (seen == .ok 0)
     pure (s.setOutWire x ((s.outWire x).arm op.k))
+  | .tear =>
+    expect "tear" "ok" seen (seen == .ok 0)
+    pure (s.setOutWire x { s.outWire x with tear := some op.k })
   | .write =>
     -- a Write does not wait for the hidden readers: try the state as it is, then settled
     let attempt (s : Sys) : Except String Sys := do
       let e := s.getEnd x
       let peer := s.getEnd (1 - x)
+      -- a torn header: the first trunk Write of this conn.Write (its first header) sends only
+      -- `k` bytes and fails.  k = 0: nothing went out, the Write fails, the mux lives on
+      -- (mux.go: `if n != 0 { setError; Close }`); k ≥ 1: the error is recorded, the mux
+      -- closes, the peer is left with `k` stray bytes and then the end of the stream.
+      match (s.outWire x).tear, e.st.objs[op.h]? with
+      | some k, some c =>
+        if !c.closed && !e.st.closed && !(s.outWire x).cut then
+          let w := { s.outWire x with tear := none }
+          if seen != .err "wfail" then
+            throw s!"write h={op.h}: the header write was torn after {k} bytes, implementation {seen.show}"
+          if k = 0 || k ≥ 8 then
+            match e.fire (.write op.h op.payload (.errTrunk false)) with
+            | some e' => return (s.setEnd x e').setOutWire x w
+            | none => throw "write: errTrunk not enabled"
+          else
+            match e.fire (.write op.h op.payload (.errTrunk true)) with
+            | some e' =>
+              let hdr := (encodeFrame ⟨c.id, ((chunks e.st.cfg.mp op.payload).getD [[]]).headD []⟩).take k
+              return (s.setEnd x e').setOutWire x (w.push hdr)
+            | none => throw "write: errTrunk not enabled"
+      | _, _ => pure ()
       match seen with
       | .ok n =>
         if n != op.payload.length then throw s!"write h={op.h}: returned n={n} for {op.payload.length} bytes"
         match e.fire (.write op.h op.payload .ok) with
-        | none => throw s!"write h={op.h}: succeeded in the implementation, connection closed in the model"
+        | none =>
+          -- `mux.Close` closes the connections one by one and the trunk last: a Write on a
+          -- connection it has not reached yet still goes out (or is swallowed by the tap)
+          match e.st.objs[op.h]? with
+          | some c =>
+            if e.st.closed && c.closed && AList.lookup e.st.cmap c.id == some op.h then
+              let w := s.outWire x
+              return s.setOutWire x (if w.exactUpTo.isNone then { w with exactUpTo := some w.sent.length } else w)
+          | none => pure ()
+          throw s!"write h={op.h}: succeeded in the implementation, connection closed in the model"
         | some e' =>
           let c ← lookupConn e op.h
           match encodeWrite e.st.cfg.mp c.id op.payload with
@@ -273,7 +308,10 @@ def Sys.apply (s : Sys) (idx : Nat) (op : Op) (seen : Seen) (_late : Option Seen
         -- `mux.Close` closes the connections one after the other and the trunk last: a Write on
         -- a connection it has not reached yet passes the `doneC` check and fails on the trunk
         match e.st.objs[op.h]? with
-        | some c => if e.st.closed && c.closed then return s
+        | some c =>
+          if e.st.closed && c.closed then
+            let w := s.outWire x
+            return s.setOutWire x (if w.exactUpTo.isNone then { w with exactUpTo := some w.sent.length } else w)
         | none => pure ()
         match e.fire (.write op.h op.payload (.errTrunk false)) with
         | some e' =>
@@ -369,7 +407,7 @@ def Sys.apply (s : Sys) (idx : Nat) (op : Op) (seen : Seen) (_late : Option Seen
       match e.fire .closeMux with
       | some e' => pure (s.setEnd x e'.wake)
       | none => throw "closeMux not enabled"
-    | .cut | .write => throw "unreachable"
+    | .cut | .write | .tear => throw "unreachable"
    if seen == .blocked then body s.settle
    else
     match body (s.settleOne x) with
